@@ -7,6 +7,7 @@
 package main
 
 import (
+	"encoding/json"
 	"fmt"
 	"os"
 	"path/filepath"
@@ -136,8 +137,10 @@ func (m xmeta) DeleteIndexGroup(database, policy string, id uint64) error {
 func (m xmeta) DelayDeleteShardGroup(database, policy string, id uint64, deletedAt time.Time, deleteType int32) error {
 	return nil
 }
-func (m xmeta) GetExpiredShards() ([]meta.ExpiredShardInfos, []meta.ExpiredShardInfos) { return nil, nil }
-func (m xmeta) GetExpiredIndexes() []meta.ExpiredIndexInfos                           { return nil }
+func (m xmeta) GetExpiredShards() ([]meta.ExpiredShardInfos, []meta.ExpiredShardInfos) {
+	return nil, nil
+}
+func (m xmeta) GetExpiredIndexes() []meta.ExpiredIndexInfos { return nil }
 
 type xeng struct {
 	w  *xworld
@@ -705,52 +708,62 @@ func genXTrace(r *gen.Rand, dir string) XTrace {
 				ev.Kind, ev.Fail = "tickfail", r.Range(1, 2)
 			}
 		}
-		ok := true
-		w.delSh, w.goneSh, w.delIx, w.goneIx = nil, nil, nil, nil
-		switch ev.Kind {
-		case "create":
-			_ = w.data.CreateShardGroup(db, rpName(ev.RP), time.Unix(0, ev.TS).UTC(), 0, config.TSSTORE, 0)
-		case "mat":
-			w.mat(uint64(ev.GID), ev.Loaded)
-		case "alter":
-			u := &meta.RetentionPolicyUpdate{}
+		w.apply(ev, &tr)
+	}
+	w.finish(&tr)
+	return tr
+}
+
+// apply runs one event on the real code and records it
+func (w *xworld) apply(ev XEvent, tr *XTrace) {
+	ok := true
+	w.delSh, w.goneSh, w.delIx, w.goneIx = nil, nil, nil, nil
+	switch ev.Kind {
+	case "create":
+		_ = w.data.CreateShardGroup(db, rpName(ev.RP), time.Unix(0, ev.TS).UTC(), 0, config.TSSTORE, 0)
+	case "mat":
+		w.mat(uint64(ev.GID), ev.Loaded)
+	case "alter":
+		u := &meta.RetentionPolicyUpdate{}
+		if ev.D != nil {
+			d := time.Duration(*ev.D)
+			u.Duration = &d
+		}
+		if ev.SGD != nil {
+			d := time.Duration(*ev.SGD)
+			u.ShardGroupDuration = &d
+		}
+		if ev.IGD != nil {
+			d := time.Duration(*ev.IGD)
+			u.IndexGroupDuration = &d
+		}
+		err := w.data.UpdateRetentionPolicy(db, rpName(ev.RP), u, false)
+		ok = err == nil
+		if ok {
+			rp := w.data.Databases[db].RetentionPolicies[rpName(ev.RP)]
 			if ev.D != nil {
-				d := time.Duration(*ev.D)
-				u.Duration = &d
-			}
-			if ev.SGD != nil {
-				d := time.Duration(*ev.SGD)
-				u.ShardGroupDuration = &d
-			}
-			if ev.IGD != nil {
-				d := time.Duration(*ev.IGD)
-				u.IndexGroupDuration = &d
-			}
-			err := w.data.UpdateRetentionPolicy(db, rpName(ev.RP), u, false)
-			ok = err == nil
-			if ok {
-				rp := w.data.Databases[db].RetentionPolicies[rpName(ev.RP)]
-				if ev.D != nil {
-					w.want[ev.RP] = *ev.D
-					if int64(rp.Duration) != *ev.D {
-						tr.Oracle = append(tr.Oracle, XFail{Kind: "alter-ignored", Event: len(tr.Events),
-							Msg:   fmt.Sprintf("ALTER of policy %d to duration %d accepted but the catalogue holds %d", ev.RP, *ev.D, int64(rp.Duration)),
-							Facts: map[string]int64{"rp": ev.RP, "d": *ev.D, "got": int64(rp.Duration)}})
-					}
+				w.want[ev.RP] = *ev.D
+				if int64(rp.Duration) != *ev.D {
+					tr.Oracle = append(tr.Oracle, XFail{Kind: "alter-ignored", Event: len(tr.Events),
+						Msg:   fmt.Sprintf("ALTER of policy %d to duration %d accepted but the catalogue holds %d", ev.RP, *ev.D, int64(rp.Duration)),
+						Facts: map[string]int64{"rp": ev.RP, "d": *ev.D, "got": int64(rp.Duration)}})
 				}
 			}
-		case "expand":
-			w.data.ClusterPtNum++
-			w.data.ExpandGroups()
-			w.addNode()
-		case "restart":
-			w.restart(uint32(ev.PT))
-		case "tick", "tickfail":
-			w.tick(&ev, len(tr.Events), &tr)
 		}
-		tr.Events = append(tr.Events, ev)
-		tr.Obs = append(tr.Obs, w.obs(ok))
+	case "expand":
+		w.data.ClusterPtNum++
+		w.data.ExpandGroups()
+		w.addNode()
+	case "restart":
+		w.restart(uint32(ev.PT))
+	case "tick", "tickfail":
+		w.tick(&ev, len(tr.Events), tr)
 	}
+	tr.Events = append(tr.Events, ev)
+	tr.Obs = append(tr.Obs, w.obs(ok))
+}
+
+func (w *xworld) finish(tr *XTrace) {
 	// did an index serve more than one shard group?
 	use := map[uint64]map[uint64]bool{}
 	for _, rp := range w.data.Databases[db].RetentionPolicies {
@@ -768,7 +781,6 @@ func genXTrace(r *gen.Rand, dir string) XTrace {
 			tr.Shared = true
 		}
 	}
-	return tr
 }
 
 func runIx(n int) {
@@ -781,5 +793,45 @@ func runIx(n int) {
 	r := gen.FromEnv(1414)
 	for i := 0; i < n; i++ {
 		gen.Emit(genXTrace(r.Fork(), filepath.Join(root, fmt.Sprint(i))))
+	}
+}
+
+// runIxReplay executes the given traces (objects with policies / ptnum / events, one per line or a JSON array in a
+// file) on the real code and emits them with observations and oracle verdicts, like generated ones.
+func runIxReplay(path string) {
+	raw, err := os.ReadFile(path)
+	if err != nil {
+		fmt.Fprintln(os.Stderr, err)
+		os.Exit(2)
+	}
+	var ins []XTrace
+	if err := json.Unmarshal(raw, &ins); err != nil {
+		var one XTrace
+		if err2 := json.Unmarshal(raw, &one); err2 != nil {
+			fmt.Fprintln(os.Stderr, err, err2)
+			os.Exit(2)
+		}
+		ins = []XTrace{one}
+	}
+	root := os.Getenv("VERIF_WORK")
+	if root == "" {
+		root, _ = os.MkdirTemp("", "c14ix")
+	}
+	root = filepath.Join(root, fmt.Sprintf("c14ixr-%d", os.Getpid()))
+	defer os.RemoveAll(root)
+	for i, in := range ins {
+		tr := XTrace{Mode: "ix", Policies: in.Policies, PtNum: in.PtNum, Oracle: []XFail{}}
+		w := newXWorld(tr.Policies, tr.PtNum, filepath.Join(root, fmt.Sprint(i)))
+		for _, ev := range in.Events {
+			if ev.Kind == "mat" && !w.canMat(uint64(ev.GID)) {
+				continue
+			}
+			if (ev.Kind == "tick" || ev.Kind == "tickfail" || ev.Kind == "restart") && int(ev.PT) >= len(w.nodes) {
+				continue
+			}
+			w.apply(ev, &tr)
+		}
+		w.finish(&tr)
+		gen.Emit(tr)
 	}
 }
